@@ -256,7 +256,22 @@ class G:
         params: list = []
         values: dict = {}
         nslots = self.d(st.integers(1, max_slots))
-        if top and self.chance(70):
+        if top and self.chance(12):
+            # half-constant first byte: a 4 bit constant in the high nibble, a 4 bit VALUE in the low nibble
+            # (the byte is only partly determined by constants, so it must not be part of the constant prefix)
+            params.append({"pk": "const", "name": "sidhi", "pos": 0, "bit": 4, "_end": 1,
+                           "dct": {"t": "std", "bt": "A_UINT32", "bl": 4, "enc": None, "hl": None},
+                           "v": self.d(st.integers(0, 15))})
+            ndop = {"k": "simple", "id": self.nid("dop"),
+                    "dct": {"t": "std", "bt": "A_UINT32", "bl": 4, "enc": None, "hl": None},
+                    "compu": {"c": "IDENTICAL"}, "pt": "A_UINT32"}
+            nname = self.nid("p")
+            params.append({"pk": "value", "name": nname, "pos": 0, "bit": 0, "_end": 1, "dop": ndop, "default": None})
+            values[nname] = self.d(st.integers(0, 15))
+            pos = 1
+            self.features.add("half-constant-first-byte")
+            self.features.add("bitpos")
+        elif top and self.chance(70):
             # constant prefix (service id)
             v = self.d(st.integers(0, 255))
             p = {"pk": "const", "name": "sid", "pos": 0, "bit": 0, "_end": 1,
@@ -592,6 +607,37 @@ class G:
             return self.emfield(tail and not must_static)
         if k == "struct":
             return self.struct(depth, must_static, tail)
+        if k == "sfield" and not tail and self.opts.get("sfield_dynamic_items", True) and self.chance(30):
+            # items of bounded dynamic size inside fixed ITEM-BYTE-SIZE slots (only where the field is followed
+            # by another parameter: whether the last item of a field at the end of the PDU may drop its
+            # terminator although padding follows is not fixed by the rules)
+            lead = self.simple_int_dop(8, signed=False, identical=True)
+            lead["dct"].pop("mask", None)
+            lead["dct"]["bl"] = 8
+            lead["dct"]["enc"] = None
+            if self.chance(50):
+                mx = self.pick([1, 2, 3])
+                dct = {"t": "minmax", "bt": "A_BYTEFIELD", "min": 0, "max": mx,
+                       "term": self.pick(["ZERO", "HEX-FF"]), "enc": None, "hl": None}
+                bound = mx
+                self.features.add("dct:minmax")
+            else:
+                dct = {"t": "leading", "bt": "A_BYTEFIELD", "bl": 8, "enc": None, "hl": None}
+                bound = 1 + 4
+                self.features.add("dct:leading")
+            ddop = {"k": "simple", "id": self.nid("dop"), "dct": dct, "compu": {"c": "IDENTICAL"}, "pt": "A_BYTEFIELD"}
+            s = {"k": "struct", "id": self.nid("st"), "bs": None, "params": [
+                {"pk": "value", "name": self.nid("p"), "pos": 0, "bit": 0, "dop": lead, "default": None},
+                {"pk": "value", "name": self.nid("p"), "pos": None, "bit": 0, "dop": ddop, "default": None}]}
+            n = self.d(st.integers(1, 3))
+            isz = 1 + bound + self.pick([0, 0, 1])
+            vals = [self.values_for_struct(s) for _ in range(n)]
+            self.features.add("sfield")
+            self.features.add("sfield-dynamic-items")
+            self.features.add("struct")
+            if n >= 2:
+                self.features.add("field>=2")
+            return {"k": "sfield", "id": self.nid("sf"), "st": s, "n": n, "isz": isz}, vals, n * isz
         if k == "sfield":
             s, _, size = self.struct(0, True, False)
             if size == 0:
